@@ -445,7 +445,9 @@ func init() {
 			}
 			for _, s := range c11Scenarios(ctx.Thorough()) {
 				if ctx.Expired() || rep.TooMany() {
-					rep.Truncated = rep.Truncated || ctx.Expired()
+					if ctx.Expired() {
+						rep.Count("unbounded_pass_cut_short_by_time_cap", 1)
+					}
 					return
 				}
 				s := s
